@@ -15,6 +15,14 @@ Driver family `gov` (C15).  One case per line (fields separated by one space):
   same request on the reference instance and on instances with different ambient node state (guardian-set state nil / empty / index 0 /
   equal / higher, different stores, channel fill levels and histories; some built by the production constructor and called over the admin
   unix socket); `alt*`: the complete result of the first instance that differs from the reference.
+
+`facts - <k>=<n|a:b> ...` (at most one, before the cases; written by `checks/c15.py`): the facts of the Ralph governance parsers as
+extracted from the CURRENT contract sources (`Whv.Gov.Facts`).  The contract side of the Spec (`specOkF`) is evaluated with THESE
+facts on every payload the real node emitted — not with the `Whv.Gen.C15` the executable happened to be compiled against (without
+such a line — nothing could be extracted — with `Facts.node`, the literal layout the node's serializers implement).  When a request's payload is exactly the one the model's `convert` emits (proved to satisfy the Spec
+under `Facts.gen`: `c15_search_sound`) and the Spec fails, the contract is what moved: clauses `contract-rejects-node-payload`
+(an assertion / slice / conversion of the extracted parser aborts) or `contract-reads-other-value` (it accepts the payload but reads a
+field as something else than requested), with the request, the node's payload and the first failing parser step.
 -/
 namespace Whv.Driver.GovFam
 open Whv Whv.Driver Whv.Gov
@@ -108,32 +116,195 @@ def envClause (cfg : Cfg) (_req : Req) (m : Msg) (v : Vaa) : String :=
     s!"envelope-emitter VAA emitter {v.body.emitterChain}/{hexOrDash v.body.emitter} is not the configured governance emitter {cfg.chain}/{hexOrDash cfg.emitter}"
   else s!"envelope-field version/set index/signatures/timestamp/nonce/sequence differ from the request: {showVaa v}"
 
+/-! ### the facts line -/
+
+def kvPair (fs : List String) (k : String) : Option (Nat × Nat) :=
+  (kv fs k).bind fun s => match s.splitOn ":" with
+    | [a, b] => do pure (← a.toNat?, ← b.toNat?)
+    | _ => none
+
+def parseFacts (fs : List String) : Option Facts := do
+  let n := kvNat fs
+  let pr := kvPair fs
+  pure {
+    coreModule := ← n "coreModule", tokenBridgeModule := ← n "tokenBridgeModule",
+    moduleSlice := ← pr "moduleSlice", moduleConv := ← n "moduleConv", actionSlice := ← pr "actionSlice",
+    actContractUpgrade := ← n "actContractUpgrade", actNewGuardianSet := ← n "actNewGuardianSet",
+    actNewMessageFee := ← n "actNewMessageFee", actTransferFee := ← n "actTransferFee",
+    actRegisterChain := ← n "actRegisterChain", actBridgeContractUpgrade := ← n "actBridgeContractUpgrade",
+    actDestroy := ← n "actDestroy", actMinConsistency := ← n "actMinConsistency", actRefundAddress := ← n "actRefundAddress",
+    gsIndex := ← pr "gsIndex", gsIndexConv := ← n "gsIndexConv", gsCount := ← pr "gsCount", gsCountConv := ← n "gsCountConv",
+    gsSizeBase := ← n "gsSizeBase", gsSizeStride := ← n "gsSizeStride", gsStoreFrom := ← n "gsStoreFrom",
+    gsKeyBase := ← n "gsKeyBase", gsKeyStride := ← n "gsKeyStride", gsKeyWidth := ← n "gsKeyWidth",
+    feeValue := ← pr "feeValue", feeConv := ← n "feeConv", feeSize := ← n "feeSize",
+    tfAmount := ← pr "tfAmount", tfAmountConv := ← n "tfAmountConv", tfRecipient := ← pr "tfRecipient", tfSize := ← n "tfSize",
+    cuCodeLen := ← pr "cuCodeLen", cuCodeLenConv := ← n "cuCodeLenConv", cuStart := ← n "cuStart",
+    rcChain := ← pr "rcChain", rcChainConv := ← n "rcChainConv", rcBridge := ← pr "rcBridge", rcSize := ← n "rcSize",
+    dsChain := ← pr "dsChain", dsCount := ← pr "dsCount", dsCountConv := ← n "dsCountConv",
+    dsSizeBase := ← n "dsSizeBase", dsSizeStride := ← n "dsSizeStride", dsPathsFrom := ← n "dsPathsFrom", dsPathWidth := ← n "dsPathWidth",
+    clValue := ← pr "clValue", clConv := ← n "clConv", clSize := ← n "clSize",
+    raLen := ← pr "raLen", raLenConv := ← n "raLenConv", raSizeBase := ← n "raSizeBase", raSizeStride := ← n "raSizeStride",
+    raAddrFrom := ← n "raAddrFrom" }
+
+/-! ### why the extracted parser does not recover the request (diagnostic text only: whether a verdict is given is decided by
+`specOkF` / `acceptsF`, the proved predicates) -/
+
+/-- One step of a parser, in source order. -/
+inductive PStep where
+  | sl (name : String) (r : Nat × Nat) (conv : Option Nat)   -- `[u256From<N>Byte!(]byteVecSlice!(payload, a, b)[)]`
+  | size (eqn : String) (n : Nat)                            -- `assert!(size!(payload) == n)`
+
+def showR (r : Nat × Nat) : String := s!"[{r.1},{r.2})"
+
+/-- The first step that makes the VM abort on `p`. -/
+def firstAbort (p : Bytes) : List PStep → Option String
+  | [] => none
+  | .sl name r conv :: rest =>
+    match Ral.slice p r with
+    | none => some s!"byteVecSlice!(payload, {r.1}, {r.2}) ({name}) is out of range: the payload has {p.length} bytes"
+    | some s =>
+      match conv with
+      | some w => if s.length = w then firstAbort p rest else some s!"u256From{w}Byte! ({name}) is applied to the {s.length}-byte slice payload{showR r}"
+      | none => firstAbort p rest
+  | .size eqn n :: rest =>
+    if p.length = n then firstAbort p rest else some s!"assert!(size!(payload) == {eqn}) fails: the parser wants {n} bytes, the payload has {p.length}"
+
+def headerSteps (F : Facts) : List PStep := [.sl "module" F.moduleSlice (some F.moduleConv), .sl "action id" F.actionSlice none]
+
+/-- The header's value assertions (module constant, action byte), once its slices can be taken. -/
+def headerValue (F : Facts) (module action : Nat) (p : Bytes) : Option String :=
+  match Ral.slice p F.moduleSlice, Ral.slice p F.actionSlice with
+  | some m, some a =>
+    if unbe m != module then some s!"module check fails: payload{showR F.moduleSlice} = {hexOrDash m} is not the module constant 0x{toHex (be 32 module)}"
+    else if a != be 1 action then some s!"action check fails: payload{showR F.actionSlice} = {hexOrDash a}, the contract's ActionId is #{toHex (be 1 action)}"
+    else none
+  | _, _ => none
+
+def readNat (p : Bytes) (r : Nat × Nat) : Nat := match Ral.slice p r with | some s => unbe s | none => 0
+
+/-- The parser of the kind of `pl`, as the list of its steps on this payload (dynamic sizes computed from the count it reads),
+its function name, its module / action constants. -/
+def stepsOf (F : Facts) (pl : Payload) (p : Bytes) : String × Nat × Nat × List PStep :=
+  match pl with
+  | .none => ("-", 0, 0, [])
+  | .updateMessageFee _ => ("governance.ral submitSetMessageFee", F.coreModule, F.actNewMessageFee,
+      [.sl "fee" F.feeValue (some F.feeConv), .size s!"{F.feeSize}" F.feeSize])
+  | .transferFee _ _ => ("governance.ral submitTransferFees", F.coreModule, F.actTransferFee,
+      [.sl "amount" F.tfAmount (some F.tfAmountConv), .sl "recipient" F.tfRecipient none, .size s!"{F.tfSize}" F.tfSize])
+  | .guardianSet _ =>
+    let n := readNat p F.gsCount
+    let size := F.gsSizeBase + n * F.gsSizeStride
+    ("governance.ral submitNewGuardianSet", F.coreModule, F.actNewGuardianSet,
+      [.sl "newGuardianSetIndex" F.gsIndex (some F.gsIndexConv), .sl "newGuardianSetSize" F.gsCount (some F.gsCountConv),
+       .size s!"{F.gsSizeBase} + {n} * {F.gsSizeStride}; newGuardianSetSize = u256From{F.gsCountConv}Byte!(payload{showR F.gsCount}) = {n}" size, .sl "guardianSets[1]" (F.gsStoreFrom, size) none])
+  | .contractUpgrade _ => ("governance.ral submitContractUpgrade / TokenBridgeFactory.parseContractUpgrade", F.coreModule, F.actContractUpgrade,
+      [.sl "contractCodeLength" F.cuCodeLen (some F.cuCodeLenConv)])
+  | .registerChain m _ _ => ("token_bridge_governance.ral parseAndVerifyRegisterChain", unbe m, F.actRegisterChain,
+      [.sl "remoteChainId" F.rcChain (some F.rcChainConv), .sl "remoteTokenBridgeId" F.rcBridge none, .size s!"{F.rcSize}" F.rcSize])
+  | .bridgeUpgrade m _ => ("token_bridge_governance.ral upgradeContract / TokenBridgeFactory.parseContractUpgrade", unbe m, F.actBridgeContractUpgrade,
+      [.sl "contractCodeLength" F.cuCodeLen (some F.cuCodeLenConv)])
+  | .destroy _ _ =>
+    let n := readNat p F.dsCount
+    let size := F.dsSizeBase + n * F.dsSizeStride
+    ("token_bridge_governance.ral destroyUnexecutedSequenceContracts", F.tokenBridgeModule, F.actDestroy,
+      [.sl "remoteChainIdBytes" F.dsChain none, .sl "length" F.dsCount (some F.dsCountConv),
+       .size s!"{F.dsSizeBase} + {n} * {F.dsSizeStride}; length = u256From{F.dsCountConv}Byte!(payload{showR F.dsCount}) = {n}" size, .sl "paths" (F.dsPathsFrom, size) none])
+  | .minConsistency _ => ("token_bridge_governance.ral updateMinimalConsistencyLevel", F.tokenBridgeModule, F.actMinConsistency,
+      [.size s!"{F.clSize}" F.clSize, .sl "consistencyLevel" F.clValue (some F.clConv)])
+  | .refundAddress _ =>
+    let n := readNat p F.raLen
+    let size := F.raSizeBase + n * F.raSizeStride
+    ("token_bridge_governance.ral updateRefundAddress", F.tokenBridgeModule, F.actRefundAddress,
+      [.sl "addressSize" F.raLen (some F.raLenConv), .size s!"{F.raSizeBase} + {n} * {F.raSizeStride}; addressSize = u256From{F.raLenConv}Byte!(payload{showR F.raLen}) = {n}" size,
+       .sl "newRefundAddress" (F.raAddrFrom, size) none])
+
+def showBs (bs : Bytes) : String := if bs.length > 40 then toHex (bs.take 40) ++ s!"..({bs.length}B)" else hexOrDash bs
+def showNats (ns : List Nat) : String := if ns.length > 6 then s!"{ns.take 6}..({ns.length} values)" else s!"{ns}"
+
+/-- What the accepting parser reads, next to what was requested (first field that differs). -/
+def otherValue (F : Facts) (gsi : Nat) (pl : Payload) (p : Bytes) : String :=
+  match pl with
+  | .updateMessageFee fee =>
+    s!"fee read from payload{showR F.feeValue} = {(RalF.parseMessageFee F p).getD 0}, requested {unbe ((hexDecode fee).getD [])}"
+  | .transferFee a r =>
+    match RalF.parseTransferFee F p with
+    | some (av, rv) =>
+      if av != unbe ((hexDecode a).getD []) then s!"amount read from payload{showR F.tfAmount} = {av}, requested {unbe ((hexDecode a).getD [])}"
+      else s!"recipient read from payload{showR F.tfRecipient} = {showBs rv}, requested {showBs ((hexDecode r).getD [])}"
+    | none => "-"
+  | .guardianSet gs =>
+    match RalF.parseGuardianSet F p with
+    | some (i, ks) =>
+      if i != gsi + 1 then s!"new guardian set index read from payload{showR F.gsIndex} = {i}, requested {gsi + 1}"
+      else s!"guardian keys read (blob from {F.gsStoreFrom}, key k at {F.gsKeyBase} + k * {F.gsKeyStride}, {F.gsKeyWidth} bytes) = {ks.map showBs}, requested {((keysOf gs).getD []).map showBs}"
+    | none => "-"
+  | .contractUpgrade s =>
+    s!"upgrade description read from offset {F.cuStart} (code length at {showR F.cuCodeLen}) = {showBs ((RalF.parseUpgrade F F.coreModule F.actContractUpgrade p).getD [])}, requested {showBs ((hexDecode s).getD [])}"
+  | .registerChain m c e =>
+    match RalF.parseRegisterChain F (unbe m) p with
+    | some (cv, b) =>
+      if cv != c then s!"remote chain id read from payload{showR F.rcChain} = {cv}, requested {c}"
+      else s!"remote token bridge id read from payload{showR F.rcBridge} = {showBs b}, requested {showBs ((hexDecode e).getD [])}"
+    | none => "-"
+  | .bridgeUpgrade m s =>
+    s!"upgrade description read from offset {F.cuStart} (code length at {showR F.cuCodeLen}) = {showBs ((RalF.parseUpgrade F (unbe m) F.actBridgeContractUpgrade p).getD [])}, requested {showBs ((hexDecode s).getD [])}"
+  | .destroy c seqs =>
+    match RalF.parseDestroy F p with
+    | some (cv, sv) =>
+      if cv != c then s!"remote chain id read from payload{showR F.dsChain} = {cv}, requested {c}"
+      else s!"sequences read (count at {showR F.dsCount}, paths from {F.dsPathsFrom} in chunks of {F.dsPathWidth}) = {showNats sv}, requested {showNats seqs}"
+    | none => "-"
+  | .minConsistency l => s!"consistency level read from payload{showR F.clValue} = {(RalF.parseMinConsistency F p).getD 0}, requested {l}"
+  | .refundAddress s =>
+    s!"refund address read from payload[{F.raAddrFrom},..) = {showBs ((RalF.parseRefundAddress F p).getD [])}, requested {showBs ((hexDecode s).getD [])}"
+  | .none => "-"
+
+/-- Clause and explanation for a payload the extracted parser does not decode back to the request. -/
+def contractClause (F : Facts) (gsi : Nat) (pl : Payload) (p : Bytes) : String × String :=
+  let (fn, module, action, steps) := stepsOf F pl p
+  if acceptsF F pl p then ("contract-reads-other-value", s!"{fn} accepts the payload but reads another value: {otherValue F gsi pl p}")
+  else
+    let why := match firstAbort p (headerSteps F) with
+      | some w => s!"parseAndVerifyGovernanceVAAGeneric: {w}"
+      | none => match headerValue F module action p with
+        | some w => s!"parseAndVerifyGovernanceVAAGeneric: {w}"
+        | none => match firstAbort p steps with
+          | some w => w
+          | none => "an assertion of the parser fails (e.g. a zero guardian count)"
+    ("contract-rejects-node-payload", s!"{fn} rejects the payload: {why}")
+
 /-- Which part of the request the parser does not recover (the stable key of a finding). -/
-def lossyClause (gsi : Nat) (pl : Payload) (p : Bytes) : String :=
+def lossyClause (F : Facts) (gsi : Nat) (pl : Payload) (p : Bytes) : String :=
   match pl with
   | .destroy c _ =>
-    match Ral.parseDestroy p with
+    match RalF.parseDestroy F p with
     | some (c', _) => if c' != c then "destroy-emitter-chain-lossy" else "destroy-sequences-lossy"
     | none => "destroy-sequences-lossy"
   | .guardianSet _ =>
-    match Ral.parseGuardianSet p with
+    match RalF.parseGuardianSet F p with
     | some (i, _) => if i != gsi + 1 then "guardian-set-index-lossy" else "guardian-set-keys-lossy"
     | none => "guardian-set-keys-lossy"
   | .registerChain _ c _ =>
-    match Ral.parseRegisterChain (unbe (p.take 32)) p with
+    match RalF.parseRegisterChain F (unbe (p.take 32)) p with
     | some (c', _) => if c' != c then "register-chain-id-lossy" else "register-chain-lossy"
     | none => "register-chain-lossy"
   | _ => s!"{kindName pl}-lossy"
 
 /-- Spec on the implementation's own VAAs, message by message; `none` = holds. -/
-def specSent (cfg : Cfg) (req : Req) : List Msg → List Vaa → Option String
+def specSent (F : Facts) (cfg : Cfg) (req : Req) : List Msg → List Vaa → Option String
   | _, [] => none
   | [], v :: _ => some s!"extra-vaa a VAA was injected that no message asked for: {showVaa v}"
   | m :: ms, v :: vs =>
     if !envOk cfg req m v then some (envClause cfg req m v)
-    else if !specOk req.currentSetIndex m.payload v.body.payload then
-      some s!"{lossyClause req.currentSetIndex m.payload v.body.payload} accepted request ({showPayload m.payload}, current_set_index={req.currentSetIndex}) is not what the contract parser recovers from payload {hexOrDash (v.body.payload.take 80)} ({v.body.payload.length} bytes)"
-    else specSent cfg req ms vs
+    else if !specOkF F req.currentSetIndex m.payload v.body.payload then
+      let p := v.body.payload
+      if convert req.currentSetIndex m.payload == .ok p then
+        -- the node emitted exactly the payload its (proved) model emits: what no longer fits is the contract's parser
+        let (clause, why) := contractClause F req.currentSetIndex m.payload p
+        some s!"{clause} the governance request kind={kindName m.payload} ({showPayload m.payload}, current_set_index={req.currentSetIndex}, target_chain_id={m.targetChain}) makes the node emit the payload {hexOrDash (p.take 110)}{if p.length > 110 then ".." else ""} ({p.length} bytes); the contract parser as extracted from the current source: {why}"
+      else
+        some s!"{lossyClause F req.currentSetIndex m.payload p} accepted request ({showPayload m.payload}, current_set_index={req.currentSetIndex}) is not what the contract parser recovers from payload {hexOrDash (p.take 80)} ({p.length} bytes)"
+    else specSent F cfg req ms vs
 
 /-- `ps` = `label:fingerprint,...`; the label of the first instance whose complete result differs from the reference's. -/
 def stateDependent (ps : String) : Option String :=
@@ -160,6 +331,8 @@ def altVerdict (lbl : String) (msgs : List Msg) (sent : List Vaa) (rest : List S
     s!"result-depends-on-node-state the same request gives a different result on the node instance {lbl} (same governance configuration, different ambient state): {detail}"
 
 structure St where
+  facts : Facts := Facts.node
+  factsGiven : Nat := 0
   n : Nat := 0
   accepted : Nat := 0
   rejected : Nat := 0
@@ -190,7 +363,7 @@ def step (st : St) (line : String) : St × List String :=
       if res = "panic" then
         (st, [s!"spec {id} request-panic-{cur} InjectGovernanceVAA panicked ({showStr msg}) on message {sent.length}: {match msgs[sent.length]? with | some m => showPayload m.payload | none => "-"}"])
       else if res = "errnonnil" then (st, [s!"spec {id} partial-result an error was returned together with a response"])
-      else match specSent cfg req msgs sent with
+      else match specSent st.facts cfg req msgs sent with
       | some c => (st, [s!"spec {id} {c}"])
       | none =>
         if res = "ok" && sent.length != msgs.length then
@@ -215,11 +388,18 @@ def step (st : St) (line : String) : St × List String :=
               | _ => st
             (st, [s!"ok {id}"])
     | _, _, _, _, _, _, _, _, _ => (st, [s!"diff {id} unparsable inj line"])
+  | "facts" :: _ :: rest =>
+    match parseFacts rest with
+    | some F =>
+      if st.n > 0 || st.factsGiven > 0 then (st, ["diff - facts line is not the first line of the input"])
+      else ({ st with facts := F, factsGiven := 1 }, [])
+    | none => (st, ["diff - unparsable facts line"])
   | [] => (st, [])
   | _ => (st, [s!"diff ? unknown line: {line.take 80}"])
 
 def fin (st : St) : List String :=
-  [s!"stat cases {st.n}", s!"stat requests_accepted {st.accepted}", s!"stat requests_rejected {st.rejected}", s!"stat vaas_checked {st.vaas}"] ++
+  [s!"stat facts_from_current_sources {st.factsGiven}", s!"stat facts_equal_node_layout {if st.facts = Facts.node then 1 else 0}",
+   s!"stat cases {st.n}", s!"stat requests_accepted {st.accepted}", s!"stat requests_rejected {st.rejected}", s!"stat vaas_checked {st.vaas}"] ++
   st.kinds.flatMap fun (k, a, r) => [s!"stat accepted_{k} {a}", s!"stat rejected_{k} {r}"]
 
 def run (h : IO.FS.Stream) : IO Unit := loop h ({} : St) step fin
